@@ -168,6 +168,17 @@ def check(ctx):
     B.must_raise("G4", ax_init, "Axis with an unknown position word", lambda: run_axis_init(P, ["center", "middle"]))
     B.must_raise("G4", ax_init, "Axis whose dimension is not in the dataset", lambda: run_axis_init(P, ["center", "left"], bad_dim=True))
     B.must_return("G4", ax_init, "valid: Axis with center/left", lambda: run_axis_init(P, ["center", "left"]))
+    # ... and in a grid-ufunc signature, given as text or as annotations (a word that merely starts like a position is unknown too)
+    from .c15 import _hint, run_from_string, run_hints
+
+    sfi, hfi = P.func("grid_ufunc:_parse_signature_from_string"), P.func("grid_ufunc:_parse_signature_from_type_hints")
+    for word in ("middle", "leftmost", "center_point", "Outer"):
+        B.must_raise("G4", sfi, f"signature text with the unknown position word {word!r}", lambda word=word: run_from_string(P, f"(X:{word})->(X:left)"))
+        B.must_raise("G4", sfi, f"signature text with the unknown output position word {word!r}", lambda word=word: run_from_string(P, f"(X:center)->(X:{word})"))
+        B.must_raise("G4", hfi, f"annotation with the unknown position word {word!r}", lambda word=word: run_hints(P, {"a": _hint(f"X:{word}"), "return": _hint("X:left")}))
+        B.must_raise("G4", hfi, f"return annotation with the unknown position word {word!r}", lambda word=word: run_hints(P, {"a": _hint("X:center"), "return": _hint(f"X:{word}")}))
+    B.must_return("G4", sfi, "valid: signature text (X:center)->(X:left)", lambda: run_from_string(P, "(X:center)->(X:left)"))
+    B.must_return("G4", hfi, "valid: annotations X:center -> X:left", lambda: run_hints(P, {"a": _hint("X:center"), "return": _hint("X:left")}))
     # ---- G5 / G6 boundary word and fill value, on every pad path
     for wname, widths in (("zero widths", {AX: (0, 0)}), ("non-zero widths", {AX: (1, 0)}), ("no widths", None)):
         B.must_raise("G5", padfi, f"unknown boundary word, scalar, {wname}", lambda widths=widths: run_pad(P, "bogus", None, widths))
@@ -299,12 +310,14 @@ def _transform(ctx, P, B):
 
     # bins given as representatives of each order class; the source's monotonicity test is evaluated on them
     try:
-        res = {"increasing": [], "decreasing": [], "neither": []}
+        res = {"increasing": [], "decreasing": [], "neither": [], "unordered": []}
         for cls, vec in [(c, v) for c in res for v in REPRESENTATIVES_ALL[c]]:
             ev = Evaluator(P, models={"transform:_interp_1d_conservative": m_kernel}, call_hook=truth_hook({"bins": vec}))
             res[cls] += ev.run_paths(kfi, lambda: dict(phi=Obj("ndarray", "phi", (), {"shape": (Lin.sym("cols"), Lin.sym("n")), "ndim": 2}), theta=Obj("ndarray", "theta", (), {"shape": (Lin.sym("cols"), Lin.sym("n") + Lin.of(1)), "ndim": 2}), target_theta_bins=Obj("ndarray", "bins", (), {"ndim": 1})))
         if any(o.kind != "raise" for o in res["neither"]):
             ctx.report("G8", kfi, "non-monotonic conservative bins", "bins that are neither strictly increasing nor strictly decreasing are answered instead of refused")
+        elif any(o.kind != "raise" for o in res["unordered"]):
+            ctx.report("G8", kfi, "conservative bins with an edge that is not a number", "bins with a NaN edge are neither increasing nor decreasing, yet they are answered instead of refused")
         elif any(o.kind != "return" for cls in ("increasing", "decreasing") for o in res[cls]):
             ctx.report("G8", kfi, "valid: monotonic conservative bins", "strictly monotonic bins are refused")
         else:
